@@ -111,6 +111,7 @@ from static_frame.core.util import IndexConstructors
 from static_frame.core.util import IndexInitializer
 from static_frame.core.util import IndexSpecifier
 from static_frame.core.util import INT_TYPES
+from static_frame.core.util import immutable_filter
 from static_frame.core.util import is_callable_or_mapping
 from static_frame.core.util import is_dtype_specifier
 from static_frame.core.util import is_mapping
@@ -1202,7 +1203,8 @@ class Frame(ContainerOperand):
                     if dtype is not None:
                         array_final = array_final.astype(dtype)
 
-                array_final.flags.writeable = False
+                # a field of the caller's array is a view of it: copy unless already immutable
+                array_final = immutable_filter(array_final)
 
                 if col_idx >= index_start_pos and col_idx <= index_end_pos:
                     index_arrays.append(array_final)
